@@ -1057,8 +1057,11 @@ def prop_cases(rng, tier):
         for v in good_values(wt, rng, O, 50 if tier == "quick" else 2000):
             yield PropCase("codec", {"wt": wt, "v": tok(v)}, (lambda wt=wt, v=v: chk_codec(wt, v)))
     for name in WIRE:
-        for kw in message_values(name, rng, O, tier):
+        for i, kw in enumerate(message_values(name, rng, O, tier)):
             yield PropCase("roundtrip", _inp(name, kw), (lambda name=name, kw=kw: chk_roundtrip(name, kw)))
+            if i < 3 and len(kw) > 1:      # keyword arguments are unordered: the call-site order must not matter
+                kw2 = dict(reversed(list(kw.items())))
+                yield PropCase("roundtrip", _inp(name, kw2), (lambda name=name, kw2=kw2: chk_roundtrip(name, kw2)))
     # alert with payloads that are arbitrary byte strings (declared type S; formerly a finding, repaired in /repo)
     for p in [b"", b"abc", b"\0" * 10] + [rb(rng, rng.randint(1, 80)) for _ in range(20)]:
         kw = {"payload": p, "signature": b"sig"}
@@ -1113,6 +1116,8 @@ def search(rng, tier, disagreements, known_ids):
                     try:        # only keyword arguments of the declared types are inputs of the property
                         wire_fields(WIRE[name], kw)
                     except Exception:
+                        continue
+                    if set(kw) != set(n for n, _ in WIRE[name]):
                         continue
                     cands.append(PropCase("roundtrip", _inp(name, kw), (lambda name=name, kw=kw: chk_roundtrip(name, kw))))
             elif toks[0] == "parse":
